@@ -14,7 +14,10 @@ use std::sync::Arc;
 #[derive(Debug, PartialEq, Clone)]
 #[cfg_attr(feature = "arbitrary", derive(arbitrary::Arbitrary))]
 pub struct Map {
+    #[cfg(not(cel_verif_hash))]
     pub map: Arc<HashMap<Key, Value>>,
+    #[cfg(cel_verif_hash)]
+    pub map: Arc<HashMap<Key, Value, crate::verif::SimHashState>>,
 }
 
 impl PartialOrd for Map {
@@ -129,7 +132,10 @@ impl TryInto<Key> for Value {
 // Implement conversion from HashMap<K, V> into CelMap
 impl<K: Into<Key>, V: Into<Value>> From<HashMap<K, V>> for Map {
     fn from(map: HashMap<K, V>) -> Self {
+        #[cfg(not(cel_verif_hash))]
         let mut new_map = HashMap::new();
+        #[cfg(cel_verif_hash)]
+        let mut new_map: HashMap<Key, Value, crate::verif::SimHashState> = HashMap::default();
         for (k, v) in map {
             new_map.insert(k.into(), v.into());
         }
@@ -435,6 +441,11 @@ impl Value {
 
     #[inline(always)]
     pub fn resolve(expr: &Expression, ctx: &Context) -> ResolveResult {
+        #[cfg(cel_verif)]
+        crate::verif::point(
+            crate::verif::SITE_RESOLVE,
+            crate::verif::kind_of(&expr.expr),
+        );
         match &expr.expr {
             Expr::Literal(val) => Ok(val.clone().into()),
             Expr::Call(call) => {
@@ -614,6 +625,8 @@ impl Value {
                             ctx,
                             call.args.clone(),
                         );
+                        #[cfg(cel_verif)]
+                        crate::verif::point(crate::verif::SITE_CALL, 0);
                         (func)(&mut ctx)
                     }
                     Some(target) => {
@@ -623,6 +636,8 @@ impl Value {
                             ctx,
                             call.args.clone(),
                         );
+                        #[cfg(cel_verif)]
+                        crate::verif::point(crate::verif::SITE_CALL, 1);
                         (func)(&mut ctx)
                     }
                 }
@@ -690,6 +705,8 @@ impl Value {
                         }
                     }
                     Value::Map(map) => {
+                        #[cfg(cel_verif)]
+                        crate::verif::point(crate::verif::SITE_MAP_ITER, map.map.len() as u64);
                         for key in map.map.deref().keys() {
                             if !Value::resolve(&comprehension.loop_cond, &ctx)?.to_bool() {
                                 break;
@@ -778,6 +795,17 @@ impl ops::Add<Value> for Value {
             (Value::Float(l), Value::Float(r)) => Value::Float(l + r).into(),
 
             (Value::List(mut l), Value::List(mut r)) => {
+                #[cfg(cel_verif)]
+                crate::verif::point(
+                    crate::verif::SITE_APPEND_LIST,
+                    Arc::strong_count(&l) as u64,
+                );
+                #[cfg(cel_verif)]
+                let _pin = if crate::verif::buggify(crate::verif::SITE_APPEND_LIST) {
+                    Some(l.clone())
+                } else {
+                    None
+                };
                 {
                     // If this is the only reference to `l`, we can append to it in place.
                     // `l` is replaced with a clone otherwise.
@@ -794,6 +822,17 @@ impl ops::Add<Value> for Value {
                 Ok(Value::List(l))
             }
             (Value::String(mut l), Value::String(r)) => {
+                #[cfg(cel_verif)]
+                crate::verif::point(
+                    crate::verif::SITE_APPEND_STR,
+                    Arc::strong_count(&l) as u64,
+                );
+                #[cfg(cel_verif)]
+                let _pin = if crate::verif::buggify(crate::verif::SITE_APPEND_STR) {
+                    Some(l.clone())
+                } else {
+                    None
+                };
                 // If this is the only reference to `l`, we can append to it in place.
                 // `l` is replaced with a clone otherwise.
                 Arc::make_mut(&mut l).push_str(&r);
